@@ -20,8 +20,7 @@ Proof.
   intros Hs Hin Hl f Hf. apply sat_initialize in Hs as (_ & _ & Hc & _).
   unfold mandatory_live in Hl. apply andb_true_iff in Hl as [Ho Hfl].
   apply negb_true_iff in Ho. apply negb_true_iff in Hfl.
-  apply (Hc c Hin Hfl). unfold conrec_asserts, enc_cons. rewrite Ho, cemit_false.
-  apply in_or_app. now left.
+  apply (Hc c Hin Hfl). unfold conrec_asserts, enc_cons. now rewrite Ho, cemit_false.
 Qed.
 
 Lemma per_cons_sound p (F : rcexpr -> list (string * form)) st e :
@@ -338,11 +337,11 @@ Lemma holds_app e l1 l2 : holds_all e (l1 ++ l2) = holds_all e l1 && holds_all e
 Proof. unfold holds_all. apply forallb_app. Qed.
 Lemma C10_optional_sem e c x :
   holds_all e (enc_cons c true x) =
-  implb (bv e (BApplied c)) (holds_all e (enc_raw c x)) && holds_all e (enc_direct x).
-Proof. unfold enc_cons. now rewrite holds_app, holds_cemit. Qed.
+  implb (bv e (BApplied c)) (holds_all e (enc_raw c x)).
+Proof. unfold enc_cons. now rewrite holds_cemit. Qed.
 Lemma C10_mandatory_sem e c x :
-  holds_all e (enc_cons c false x) = holds_all e (enc_raw c x) && holds_all e (enc_direct x).
-Proof. unfold enc_cons. now rewrite holds_app, cemit_false. Qed.
+  holds_all e (enc_cons c false x) = holds_all e (enc_raw c x).
+Proof. unfold enc_cons. now rewrite cemit_false. Qed.
 
 (* no leak: the own assertions of a constraint used as an operand reach the solver nowhere *)
 Definition drop_flagged (st : pstate) : pstate :=
